@@ -59,9 +59,9 @@ xoshiro_table!(c01_type);
 /// implies equality under the real multiplication.
 pub mod uf {
     static mut MUL_N: usize = 0;
-    static mut MUL_A: [u64; 48] = [0; 48];
-    static mut MUL_B: [u64; 48] = [0; 48];
-    static mut MUL_R: [u64; 48] = [0; 48];
+    static mut MUL_A: [u64; 160] = [0; 160];
+    static mut MUL_B: [u64; 160] = [0; 160];
+    static mut MUL_R: [u64; 160] = [0; 160];
 
     #[allow(static_mut_refs)]
     pub fn umul64(a: u64, b: u64) -> u64 {
@@ -74,7 +74,7 @@ pub mod uf {
                 }
                 i += 1;
             }
-            assert!(MUL_N < 48);
+            assert!(MUL_N < 160);
             MUL_A[MUL_N] = a;
             MUL_B[MUL_N] = b;
             MUL_R[MUL_N] = r;
